@@ -140,6 +140,7 @@ pub proof fn lemma_ty_idx(m: &naga::Module, t: &naga::Type, i: int)
 // What a wgpu 24 vertex format IS (wgpu-types VertexFormat docs / wgpu-core validation.rs NumericType::from_vertex_format):
 // scalar kind, bytes per component, number of components.  Only the non-normalized integer and float formats a WGSL
 // vertex input can have are listed; every other format maps to None.
+//@conform
 pub open spec fn vf_shape(f: wgpu_types::VertexFormat) -> Option<(naga::ScalarKind, int, int)> {
     match f {
         wgpu_types::VertexFormat::Uint8x2 => Some((naga::ScalarKind::Uint, 1, 2)),
